@@ -163,10 +163,12 @@ def run(ctx):
     # 1. S => P: the constants of the bounds hold on the design ------------------------------------------------------
     mcs = [("MC_Poll_nt.cfg", "N=4 {1,2,3,5} unperturbed, + vector top is arg-min", True),
            ("MC_Poll_pert_q.cfg", "N=2 {1,2} all perturbations except re-add, K=1", True),
-           ("MC_Poll_readd.cfg", "N=2 (1,2) remove + re-add (new instance at g_lastPollOrder + priority), fix-point", True)]
+           ("MC_Poll_readd.cfg", "N=2 (1,2) remove + re-add (new instance at g_lastPollOrder + priority), fix-point", True),
+           ("MC_Poll_self3.cfg", "N=3 (2,3,8), the priority of message 3 changed over {7,8,9} any number of times between selections", True)]
     if ctx.thorough:
         mcs += [("MC_Poll_pert_t.cfg", "N=3 priorities (1,1,2), setprio {1,2} / add front / back, K=1", True),
                 ("MC_Poll_hi.cfg", "N=2 (1,2), setprio {1,7} / add front / back / condition use (7 -> 5), K=1", True),
+                ("MC_Poll_self.cfg", "N=2 (1,8), priorities of both messages changed over {1,2,3,7,8,9} any number of times", True),
                 ("MC_Poll_readd_t.cfg", "N=3 (1,2,3) re-add + setprio {1,3} + front insertion, K=1", True)]
     mcs += [("MC_Poll_argmin.cfg", "vector top is arg-min under perturbation (design note, expected to be refuted)", False),
             ("MC_Poll_readd_pinned.cfg", "design before the repair of MessageMap::add (new instance keeps order 0): expected to be refuted", False)]
@@ -183,12 +185,14 @@ def run(ctx):
     # 2. P on G + fidelity ---------------------------------------------------------------------------------------------
     jobs = [Job("n2full", [1, 2], "ntsaf", [1, 2, 3], 2),
             Job("n3add", [1, 2, 3], "ntaf", [1, 2, 3], 2),
+            Job("n3victim", [1, 2, 8], "nv", [8, 9], 1),
             Job("n2readd", [1, 2], "nr", [1, 2], 1, cap=12, maxnodes=8000)]
     if ctx.thorough:
         jobs = [Job("n2full", [1, 2], "ntsaf", [1, 2, 3], 2),
                 Job("n2cond7", [1, 2], "nsafc", [1, 7], 1),
                 Job("n3add", [1, 2, 3], "ntafc", [1, 2, 3], 2),
                 Job("n3prio", [1, 1, 2], "nts", [1, 2], 1),
+                Job("n3victim", [1, 2, 8], "ntv", [3, 8, 9], 1),
                 Job("n2readd", [1, 2], "nr", [1, 2], 1, cap=24, maxnodes=20000),
                 Job("n3readd", [1, 2, 3], "nr", [1, 2, 3], 1, cap=12, maxnodes=30000),
                 Job("n2readdmix", [1, 2], "nrsf", [1, 3], 1, cap=8, maxnodes=30000)]
@@ -197,15 +201,17 @@ def run(ctx):
 
     # 3. long seeded random executions as linear traces ---------------------------------------------------------------
     prios10 = [1, 2, 3, 4, 5, 6, 7, 8, 9, 9]
-    runs = [("rnd-pert", prios10, "ntsafc", 100), ("rnd-storm", [3, 1, 4, 1, 5, 9, 2, 6], "ntsafc", 400)]
+    # toggle = period (in selections) at which the last message's priority is switched between 8 and 9
+    runs = [("rnd-pert", prios10, "ntsafc", 100, 7), ("rnd-storm", [3, 1, 4, 1, 5, 9, 2, 6], "ntsafc", 400, 0),
+            ("rnd-toggle", [1, 1, 1, 8], "nt", 0, 5)]
     if ctx.thorough:
-        runs.insert(0, ("rnd-quiet", prios10, "nt", 0))
+        runs.insert(0, ("rnd-quiet", prios10, "nt", 0, 0))
     steps = 15000 if ctx.thorough else 4000
-    for name, prios, alpha, permille in runs:
+    for name, prios, alpha, permille, toggle in runs:
         t0 = time.time()
         cfg = _cfgfile(wd, name, prios, 0, 0, alpha, [])
         lin = os.path.join(wd, name + ".ndjson")
-        recs.run_harness(ctx, exe, ["random", cfg, lin, steps, permille])
+        recs.run_harness(ctx, exe, ["random", cfg, lin, steps, permille, toggle])
         r = _tlc(ctx, lin, prios, 3, 0, "C17-" + name, heap="10g")
         stats["states"] += r["distinct"]
         stats["traces"] += 1
@@ -213,14 +219,14 @@ def run(ctx):
             sig0 = _bad(r)
             ctx.violation("C17:%s:random-%s" % (SIG_CLAUSE.get(sig0, sig0), name),
                           "random execution %s (N=%d, seed %d) rejected after %d steps: %s" % (name, len(prios), ctx.seed, len(r["trace"]), sig0),
-                          {"mode": "random", "cfg": name, "prios": prios, "seed": ctx.seed, "steps": steps, "permille": permille})
+                          {"mode": "random", "cfg": name, "prios": prios, "seed": ctx.seed, "steps": steps, "permille": permille, "toggle_period": toggle})
         fr = _tlc(ctx, lin, prios, 3, 0, "C17-%s-fid" % name, mode="fidelity", heap="10g")
         drift = [v for v in fr["vf"] if len(v) > 2 and v[1] == "DRIFT"]
         stats["fidelity_nodes"] += steps
         if drift:
             ctx.drift.append("random run %s: %d steps differ from the concrete S step (first: node %s)" % (name, len(drift), drift[0][2]))
-        ctx.log("random %s: N=%d %d steps, perturbation rate %d/1000: %s, fidelity %s (%.0fs)"
-                % (name, len(prios), steps, permille, "REJECTED " + str(_bad(r)) if r["violated"] else "accepted", "drift" if drift else "ok", time.time() - t0))
+        ctx.log("random %s: N=%d %d steps, perturbation rate %d/1000, victim priority toggled every %d selections: %s, fidelity %s (%.0fs)"
+                % (name, len(prios), steps, permille, toggle, "REJECTED " + str(_bad(r)) if r["violated"] else "accepted", "drift" if drift else "ok", time.time() - t0))
         if not samples:
             first = recs.read_ndjson(lin)[:40]
             samples.append({"random": name, "prios": prios, "first_selections": [n["succ"][0][3] for n in first if n["succ"] and n["succ"][0][0] == 1]})
@@ -245,5 +251,8 @@ def run(ctx):
         "graphs with re-add: exact re-execution in forked children; absolute minimum order capped in the visited-key "
         "(bounded exploration, not a fix-point in the absolute order)",
         "setPollPriority is driven as all callers do: addPollMessage(false) iff it returned true; priorities 1..9",
-        "monitor judges a message's wait only up to K perturbations since its last selection (K in the evidence)",
+        "monitor: events applied to a message itself (setPollPriority, front/back insertion, condition use) never extend "
+        "that message's own wait budget - it stays judged for any number of them, with the bound taken from the largest "
+        "priority it has had; only events on OTHER messages add N to its allowance, and its wait is judged up to K of those "
+        "since its last selection (K in the evidence)",
     ]
